@@ -15,6 +15,7 @@ EXPLANATION = (
     'C19.SERIALIZE: the router-facing entry computes the payload synchronously (to_string() before create_task), creates exactly one task per '
     'message with that payload, and the coroutine writes the payload with a single write call, unmodified. C19.NONBLOCK: the entry is a plain '
     'function without await or blocking I/O. C19.SIBLING: the three senders (TCP server, TTY server, TCP client) agree on all of the above.'
+    ' A lock region is a with statement together with the iterations of the loops around it: a lock taken inside a chunking loop is released between the chunks of one message.'
 )
 NOT_DECIDED = "exploration of the scheduler's choice points (replaced by: FIFO task start + fair lock, see assumptions)."
 ASSUMPTIONS = [
@@ -85,9 +86,12 @@ def rule_lock(ctx):
                     ctx.violated("C19.LOCK", co.short, f"{show(e.data['term'])[:50]} is performed outside any per-connection lock: two send tasks of one connection can interleave or reorder their output", fi=co, node=e.node, text=f"unlocked:{e.data['term'].args[0].args[1]}")
                     bad = True
                 else:
-                    frames.append(w[-1])
+                    # the dynamic instance of the region: the with statement plus the iterations of the loops around it
+                    # (a lock taken inside a loop is taken - and released - once per iteration)
+                    k = max(i_ for i_, c in enumerate(e.ctx) if c[0] == "with")
+                    frames.append((w[-1][0], w[-1][1], (id(w[-1][2]),) + tuple((c[1], c[2]) for c in e.ctx[:k] if c[0] == "loop")))
                     lock_names.update(w[-1][1])
-            if frames and len({id(f[2]) for f in frames}) != 1:
+            if frames and len({f[2] for f in frames}) != 1:
                 ctx.violated("C19.LOCK", co.short, "the output operations of one message are spread over several lock regions: another message can get in between", fi=co, text="split-lock")
                 bad = True
             enters = [e for e in pa.events if e.kind == "with-enter"]
